@@ -69,6 +69,22 @@ def status():
     return '\n'.join(rows)
 
 
+def theorems(pid):
+    import glob
+    sys_path = os.path.join(V, 'lean', 'Alpaqa', 'Props')
+    files = sorted(glob.glob(os.path.join(sys_path, pid + '.lean')) + glob.glob(os.path.join(sys_path, pid + '_*.lean')))
+    if pid == 'C09':
+        files += [os.path.join(sys_path, 'Directions.lean')]
+    lines = []
+    for f in files:
+        txt = open(f, encoding='utf8').read()
+        txt = re.sub(r'/-.*?-/', '', txt, flags=re.S)
+        names = re.findall(r'^\s*(?:@\[[^\]]*\]\s*)*(?:private\s+|protected\s+)?theorem\s+(\S+)', txt, flags=re.M)
+        nex = len(re.findall(r'^\s*example\b', txt, flags=re.M))
+        lines.append(f"- `{os.path.basename(f)}` ({len(names)} theorems, {nex} examples): " + ', '.join(f'`{n}`' for n in names))
+    return '\n'.join(lines) if lines else '(none yet)'
+
+
 def main():
     p = os.path.join(V, 'DESIGN.md')
     s = open(p).read()
@@ -76,6 +92,11 @@ def main():
         a, b = f'<!-- {tag}:BEGIN -->', f'<!-- {tag}:END -->'
         if a in s and b in s:
             s = s[:s.index(a) + len(a)] + '\n' + body + '\n' + s[s.index(b):]
+    for l in open(os.path.join(V, 'properties.jsonl')):
+        pid = json.loads(l)['id']
+        a, b = f'<!-- THEOREMS:{pid}:BEGIN -->', f'<!-- THEOREMS:{pid}:END -->'
+        if a in s and b in s:
+            s = s[:s.index(a) + len(a)] + '\n' + theorems(pid) + '\n' + s[s.index(b):]
     open(p, 'w').write(s)
 
 
